@@ -154,6 +154,30 @@ def mutate_str(c, rng):
         out.append(dict(c, s=s[:i] + s[i+1:]))
     return out
 
+# ---- quoted literals ----
+def gen_quoted(tier, rng):
+    out = []
+    ss = strings("quick", rng, 200 if tier == "quick" else 5000)
+    if tier == "quick":
+        ss = [s for s in ss if len(s) <= 2] + rng.sample([s for s in ss if len(s) > 2], 700)
+    for s in ss:
+        for k in (rng.sample(CONFIGS, 2) if tier == "quick" else CONFIGS):
+            out.append({"k": k, "q": rng.choice(['"', "'", '"', "|"]), "s": s})
+    return out
+
+def quoted_to_coq(c, r):
+    return f"({ccfg(c['k'])}, {ord(c['q'])}, {cstr(c['s'])}, {cout(r, 'q')})"
+
+def wf_quoting(k, q):
+    k2 = dict(k, add=q + k["add"])
+    if not wf_escaping(k2) or k["esc"] == q: return False
+    for w in (k["multi"], k["single"]):
+        if w and w[0] == q: return False
+    return True
+
+def known_quoted(c, r):
+    return None if wf_quoting(c["k"], c["q"]) else "D23-escaping-configuration-not-self-escaping"
+
 # ---- slices ----
 def gen_slice(tier, rng):
     out = []
@@ -191,6 +215,7 @@ PROPERTY = Property(
         Suite("plain", gen_plain, "run_plain", REQ, "judge_plain", plain_to_coq, known=known_plain, mutate=mutate_str),
         Suite("convert", gen_convert, "run_convert", REQ, "judge_convert", convert_to_coq, known=known_convert, mutate=mutate_str),
         Suite("regex", gen_regex, "run_regex", REQ, "judge_regex", regex_to_coq, mutate=mutate_str),
+        Suite("quoted", gen_quoted, "run_quoted", REQ, "judge_quoted", quoted_to_coq, known=known_quoted, mutate=mutate_str),
         Suite("slice", gen_slice, "run_slice", REQ + ["Model.Slice"], "judge_slice", slice_to_coq, known=known_slice, mutate=mutate_str),
     ],
     rule="strings over {\\ * ? \" ' : & % . ( [ a B space}: exhaustive up to length 3 (quick) / 4 (thorough), longer over a reduced alphabet, "
